@@ -304,13 +304,13 @@ def expected_history(chain, q):
 
 
 def check_index(sim, label, *, queries=None, check_history=True, check_utxos=True, check_fs=True,
-                check_state=True, check_limits=False, upto=None):
+                check_state=True, check_limits=False, upto=None, sig_override=None):
     '''Compare every observable of the real index with the reference chain sim.chain (or its
     first upto+1 blocks).'''
     eng, db = sim.eng, sim.db
     chain = sim.chain if upto is None else sim.chain[:upto + 1]
     top = len(chain) - 1
-    sig = lambda s: {'signature': f'{label}:{s}'}    # noqa
+    sig = lambda s: {'signature': sig_override or f'{label}:{s}', 'observable': s}    # noqa
     all_outs = [o for b in chain for tx in b.txs for o in tx.outs]
     live = live_outputs(chain)
     live_ids = {id(o) for o in live}
